@@ -82,22 +82,24 @@ func runC18(c *Ctx) {
 	wp := p.MustMethod("gossip", "BatchProcessor", "wasProcessed")
 	sub := p.MustMethod("gossip", "BatchProcessor", "Subscribe")
 	{
+		// the function that consults wasProcessed: the goroutine's closure, or a named method the goroutine
+		// (or its per-message helper) runs
 		var loop *ssa.Function
-		for _, a := range Anons(sub) {
-			if len(callsIn(a, func(k *ssa.CallCommon) bool { return k.StaticCallee() == wp })) > 0 {
+		for _, a := range append(Anons(sub), p.FuncsWithGo(sub, 3)...) {
+			if a != sub && len(callsIn(a, func(k *ssa.CallCommon) bool { return k.StaticCallee() == wp })) > 0 {
 				loop = a
 			}
 		}
 		if loop == nil {
 			c.Fail("R2", funcName(sub), sub.Pos(), "the processing loop does not consult wasProcessed")
 		} else {
-			notProcessed := func(in ssa.Instruction) bool {
-				cs := p.CondsAt(in.Block())
-				return hasCond(cs, func(k Cond) bool { return !k.Pol && k.Atom.IsCallTo(wp) })
+			rgL := p.RegionOf(loop, 2) // the task loop / the republication may sit in helpers of the processor
+			notProcessed := func(ri regionInstr) bool {
+				return hasCond(rgL.Conds(ri), func(k Cond) bool { return !k.Pol && k.Atom.IsCallTo(wp) })
 			}
 			n := 0
 			bad := 0
-			eachInstr(loop, func(in ssa.Instruction) {
+			rgL.Instrs(func(site regionSite, in ssa.Instruction) {
 				cc := callCommon(in)
 				if cc == nil {
 					return
@@ -108,7 +110,7 @@ func runC18(c *Ctx) {
 					return
 				}
 				n++
-				if !notProcessed(in) {
+				if !notProcessed(regionInstr{site, in}) {
 					bad++
 					what := "a task is created"
 					if isPub {
